@@ -74,7 +74,7 @@ type Contracts struct {
 
 var clauseRe = regexp.MustCompile(`^([a-z_]+)(#[A-Za-z0-9_.\-]+)?((?:\s+@C[0-9]+)*)\s*(.*)$`)
 
-var flagKinds = map[string]bool{"intmode": true, "pure": true, "inline": true, "trusted": true, "external": true, "nopanic": true, "property": true, "bound": true, "opaque": true, "reads": true, "mayPanic": true, "ghostret": true, "unroll": true, "axioms": true, "noctx": true, "reveal": true, "nonnilcaptures": true, "nostack": true, "appendfwd": true, "implements": true, "frame": true, "splitpaths": true}
+var flagKinds = map[string]bool{"intmode": true, "pure": true, "inline": true, "trusted": true, "external": true, "nopanic": true, "property": true, "bound": true, "opaque": true, "reads": true, "mayPanic": true, "ghostret": true, "unroll": true, "axioms": true, "noctx": true, "reveal": true, "nonnilcaptures": true, "nostack": true, "appendfwd": true, "implements": true, "frame": true, "splitpaths": true, "named": true}
 
 func parseContracts(path string) (*Contracts, error) {
 	f, err := os.Open(path)
